@@ -260,9 +260,11 @@ theorem exec_solvent_nomig {w w' : World} {blk : Block} {op : Op} {o : Outcome}
     (hs : Solvent w) (hnm : ∀ g, op ≠ .migrate g) (h : w.exec blk op = .ok (w', o)) :
     Solvent w' ∧ w'.st.version = w.st.version := by
   cases op with
-  | connect id v cv ord =>
-    obtain ⟨e1, e2, e3, e4, e5, e6, _⟩ := exec_plain_frame h (Or.inl ⟨id, v, cv, ord, rfl⟩)
+  | connect id v cv ord peer =>
+    obtain ⟨e1, e2, e3, e4, e5, e6, _⟩ := exec_plain_frame h (Or.inl ⟨id, v, cv, ord, peer, rfl⟩)
     exact ⟨solvent_of_same e1 e2 e3 e4 e5 hs, e6⟩
+  | chanOpen v cv ord => obtain ⟨rfl, _⟩ := exec_chanOpen h; exact ⟨hs, rfl⟩
+  | chanClose id => exact (exec_chanClose h).elim
   | allow snd c gg =>
     obtain ⟨e1, e2, e3, e4, e5, e6, _⟩ := exec_plain_frame h (Or.inr (Or.inl ⟨snd, c, gg, rfl⟩))
     exact ⟨solvent_of_same e1 e2 e3 e4 e5 hs, e6⟩
@@ -765,8 +767,8 @@ example : (run wL histL).holdings (.native "uatom") = some 0 ∧
 
 /-- With a second channel connected before the migration, `migrate` from 0.13.0 fails (a no-op): the
 stored version stays 0.13.0 and the state stays (trivially) solvent. -/
-example : (run wL [(b0, .connect "channel-1" ICS20_VERSION none false), (b0, .migrate none)]).st.version = ⟨0, 13, 0, none⟩ ∧
-    ((wL.step b0 (.connect "channel-1" ICS20_VERSION none false)).exec b0 (.migrate none)).tag = "multiplechannels" := by
+example : (run wL [(b0, .connect "channel-1" ICS20_VERSION none false {}), (b0, .migrate none)]).st.version = ⟨0, 13, 0, none⟩ ∧
+    ((wL.step b0 (.connect "channel-1" ICS20_VERSION none false {})).exec b0 (.migrate none)).tag = "multiplechannels" := by
   decide
 
 end CwPlus.Props.C11
